@@ -196,6 +196,14 @@ func c09Race(r *mc.Report, e *Env, nw *c09Net) {
 	d := &mc.DFS{Bound: bound} // (the bubble's clock is virtual: no deadline here; the space is small)
 	var out string
 	d.Body = func(c *mc.Ctx) { out = c09RaceRun(r, nw, c) }
+	if freeRuns > 0 {
+		for i := 0; i < freeRuns; i++ {
+			mc.Replay(nil, d.Body)
+			r.Exec("free|race|" + out)
+		}
+		r.Count("free_running_executions", int64(freeRuns))
+		return
+	}
 	d.After = func(c *mc.Ctx) {
 		if c.Diverged != "" {
 			r.Count("race_schedules_diverged", 1)
